@@ -246,6 +246,7 @@ func Trimpath(on bool) {
 	}
 }
 func Shared(p any)          {}
+func SharedGlobals(prefix string) {}
 // FrameFile tags the calling frame with a source file name for the symbolic
 // runtime.Caller stub. Natively the frames are real: harness helper functions
 // live in non-test files of the package and the harness entry is called from
